@@ -15,6 +15,17 @@
 #[derive(Clone, Copy)]
 pub struct NodeIndex { pub i: usize }
 
+// derived PartialEq/Eq of petgraph's index types (structural); not used by the pinned code, declared so that an
+// edited body comparing nodes or edges is decided instead of rejected
+impl PartialEq for NodeIndex {
+    fn eq(&self, other: &NodeIndex) -> (r: bool) { self.i == other.i }
+}
+impl PartialEqSpecImpl for NodeIndex {
+    open spec fn obeys_eq_spec() -> bool { true }
+    open spec fn eq_spec(&self, other: &NodeIndex) -> bool { self.i == other.i }
+}
+impl Eq for NodeIndex {}
+
 impl NodeIndex {
     /// petgraph: `NodeIndex::new(x)` = `NodeIndex(x as u32)`, `index()` = `self.0 as usize`:
     /// the round trip is the identity for x <= u32::MAX (nothing is claimed beyond).
